@@ -114,7 +114,8 @@ def gen(rng, tier='quick', kinds=None, max_nz=None, allow_eq=True, allow_pieces=
              'P': np.zeros((nx, nz)).tolist(), 'q': (-beta).tolist(), 'k': 0.0}
         rows.append({'e': e, 'sense': 'eq', 'rhs': float(np.round(rng.uniform(-0.3, 0.3), 2)),
                      'set': None, 'eqdef': [i, r, j, alpha, beta.tolist()]})
-    spec = {'nx': nx, 'xsplit': _split(rng, nx), 'xM': xM, 'yM': yM,
+    late = int(rng.integers(1, 3)) if (rules and rng.random() < 0.25) else 0
+    spec = {'late_rvar': late, 'nx': nx, 'xsplit': _split(rng, nx), 'xM': xM, 'yM': yM,
             'nz': nz, 'nzr': nzr, 'zsplit': _split(rng, nz), 'rules': rules,
             'dset': dset, 'dcenter': zc, 'mode': mode, 'pieces': pieces, 'rows': rows,
             'xstar': xstar.tolist(), 'spell': int(rng.integers(1 << 30))}
@@ -255,6 +256,9 @@ def build(spec, rso_mod=None, variant=None):
                 for j in range(sub.shape[1]):
                     if sub[i, j]:
                         y[i].adapt(z[j])
+    if spec.get('late_rvar'):
+        # a random variable declared after adapt() and never used anywhere
+        B.late_rvar = m.rvar(int(spec['late_rvar']))
     _hook(variant, 'declared', B)
     zfull = zs[0] if len(zs) == 1 else rso.concat(zs)
     B.zfull = zfull
